@@ -43,13 +43,19 @@ void generate_math_utility_builtins(StringBuilder *sb) {
     sb_append(sb, "static double nl_round(double x) { return round(x); }\n\n");
 
     /* Type casting functions */
-    sb_append(sb, "static int64_t nl_cast_int(double x) { return (int64_t)x; }\n");
+    /* Dispatch on the argument's type: an int must not travel through a double (2^63-1 came back as
+     * -2^63) and a float must not travel through an int64 (cast_float 1.5 was 1.0, cast_bool 0.25 false) */
+    sb_append(sb, "static int64_t nl_cast_int_from_float(double x) { return (int64_t)x; }\n");
     sb_append(sb, "static int64_t nl_cast_int_from_int(int64_t x) { return x; }\n");
-    sb_append(sb, "static double nl_cast_float(int64_t x) { return (double)x; }\n");
+    sb_append(sb, "#define nl_cast_int(x) _Generic((x), double: nl_cast_int_from_float, default: nl_cast_int_from_int)(x)\n");
+    sb_append(sb, "static double nl_cast_float_from_int(int64_t x) { return (double)x; }\n");
     sb_append(sb, "static double nl_cast_float_from_float(double x) { return x; }\n");
+    sb_append(sb, "#define nl_cast_float(x) _Generic((x), double: nl_cast_float_from_float, default: nl_cast_float_from_int)(x)\n");
     sb_append(sb, "static void* nl_null_opaque() { return NULL; }\n");
     sb_append(sb, "static int64_t nl_cast_bool_to_int(bool x) { return x ? 1 : 0; }\n");
-    sb_append(sb, "static bool nl_cast_bool(int64_t x) { return x != 0; }\n\n");
+    sb_append(sb, "static bool nl_cast_bool_from_int(int64_t x) { return x != 0; }\n");
+    sb_append(sb, "static bool nl_cast_bool_from_float(double x) { return x != 0.0; }\n");
+    sb_append(sb, "#define nl_cast_bool(x) _Generic((x), double: nl_cast_bool_from_float, default: nl_cast_bool_from_int)(x)\n\n");
 
     /* println function - uses _Generic for type dispatch */
     sb_append(sb, "static void nl_println(void* value_ptr) {\n");
